@@ -229,18 +229,30 @@ class _MatEval:
         raise Unrecognised('scalar expression ' + src(e, 40))
 
 
+def _final_else(stmts):
+    """the statements of the general case: what is left after every special-case `if` of the block (if/elif/else chains and
+    early-exit ifs alike); an `if twist:` selects the output form and is not a special case"""
+    for _ in range(8):
+        nxt = None
+        for st in stmts:
+            if isinstance(st, ast.If) and not (isinstance(st.test, ast.Name) and st.test.id == 'twist'):
+                arms, els = if_chain(st)
+                nxt = els
+                break
+        if not nxt:
+            return stmts
+        stmts = nxt
+    return stmts
+
+
 def _rot_general_block(f):
-    """statements of the last else of the if-chain under `elif isrot(...)` in trlog"""
+    """statements of the general case under `elif isrot(...)` in trlog"""
     for st in own_walk(f.node):
         if isinstance(st, ast.If):
             node = st
             while True:
                 if 'isrot(' in ast.unparse(node.test):
-                    arms, els = if_chain(node.body[-1]) if isinstance(node.body[-1], ast.If) else ([], None)
-                    for x in node.body:
-                        if isinstance(x, ast.If):
-                            arms, els = if_chain(x)
-                    return els
+                    return _final_else(node.body)
                 if len(node.orelse) == 1 and isinstance(node.orelse[0], ast.If):
                     node = node.orelse[0]
                 else:
@@ -258,10 +270,13 @@ def check_log_general(run, rule='R19'):
     Rm, K = rodrigues_matrix()
     me = _MatEval(Rm)
     c, s = Poly.atom('c'), Poly.atom('s')
+    from ..cfg import pure_locals, _subst_pure
+    pl = {k: canon(fi, v, inline=False) for k, v in pure_locals(f.node).items()}
     defs = {}
     for st in blk:
         if isinstance(st, ast.Assign) and isinstance(st.targets[0], ast.Name):
-            defs[st.targets[0].id] = canon(fi, st.value, inline=False)
+            # single-definition locals such as trace = np.trace(R) are substituted (theta itself is kept as the angle atom)
+            defs[st.targets[0].id] = _subst_pure(canon(fi, st.value, inline=False), {k: v for k, v in pl.items() if k not in ('theta',)})
     try:
         # angle
         th = defs.get('theta')
@@ -294,7 +309,12 @@ def check_log_general(run, rule='R19'):
                 run.violation(rule, f.key, 'log o exp: axis', 'for R = I + sin(t) K + (1 - cos(t)) K^2 the numerator %s composes to %s at [%d,%d], not to '
                               'sin(t) * K[%d,%d] = %s: log(exp(S)) does not return S' % (src(sk, 30), _unit_reduce(m[i][j]), i, j, i, j, s * K[i][j]), f=f)
             # returns: skw * theta / vex(skw * theta)
-            rets = [canon(fi, r.value, inline=False) for st in blk for r in ast.walk(st) if isinstance(r, ast.Return) and r.value is not None]
+            # locals of the block are substituted in order (S = skw * theta), the angle and the unit skew matrix stay atomic
+            env = {k: v for k, v in pl.items() if k not in ('theta', skname)}
+            for st in blk:
+                if isinstance(st, ast.Assign) and isinstance(st.targets[0], ast.Name) and st.targets[0].id not in ('theta', skname):
+                    env[st.targets[0].id] = _subst_pure(canon(fi, st.value, inline=False), env)
+            rets = [_subst_pure(canon(fi, r.value, inline=False), env) for st in blk for r in ast.walk(st) if isinstance(r, ast.Return) and r.value is not None]
             nm = Normaliser()
             nm.scalars = {'theta'}
             want = nm.poly(parse_expr('%s * theta' % skname))
@@ -384,7 +404,15 @@ def check_ginv(run, rule='R21'):
     nm = Normaliser()
     nm.scalars = {'theta'}
     try:
-        got = nm.poly(canon(fi, g.value, inline=False))
+        from ..cfg import _subst_pure
+        from .r16_tables import _enclosing_block as _eb
+        env = {}
+        for st in (_eb(f.node, g) or []):
+            if st is g:
+                break
+            if isinstance(st, ast.Assign) and isinstance(st.targets[0], ast.Name) and st.targets[0].id not in ('S', 'theta', 'w', 'v', 't', 'R'):
+                env[st.targets[0].id] = _subst_pure(canon(fi, st.value, inline=False), env)      # e.g. the scalar coefficient k
+        got = nm.poly(_subst_pure(canon(fi, g.value, inline=False), env))
     except Unrecognised as ex:
         run.error('R21: Ginv unrecognised: %s' % ex)
         return
